@@ -47,6 +47,19 @@ CHECKS = {
                      "checks the statement's consequences on Layout.Expected and emits the table; the harness presses every point on the real engine and "
                      "compares text, emptiness and session flag (exhaustive: true)",
                 note="key-name -> layout-entry naming convention (bin/gen.py) transcribed from riti.h names; two layout files; TLC JSON modules, harness executor trusted"),
+    "C09": dict(category=MC, design_ref="DESIGN.md 5 C09",
+                technique="TLC trace validation (impl -> spec): recorded commit/restart/re-typing sessions of the real engine checked against Trace_Store (Store.tla: KeyOf, StripCand, Join)",
+                text="8 x 60 (quick) / 8 x 400 (thorough) recorded rounds of a commit-heavy driver (real words, META wrapping, smart quotes and English on/off, restarts over the same "
+                     "directory, suffixed re-typing, file inspected after each commit) are validated by TLC: the learned map is spec state that evolves by the spec's own rules, every "
+                     "shown list must preselect the learned (or correctly joined) candidate, committing the preselected index changes nothing, the file is always absent or valid. "
+                     "MC_Split checks the text-level round trip on all class strings. Known finding F11 is accepted explicitly by the trace spec.",
+                note="recorder facts: okkhor transliteration of every prefix/suffix of the typed text; statement scope 'same text typed again'; echoed selection byte on punctuation keys accepted (F05)"),
+    "C10": dict(category=MC, design_ref="DESIGN.md 5 C10",
+                technique="TLC model checking of the environment/fault model MC_Fault + replay of every fault scenario with exhaustive concretisation of torn files (every byte prefix)",
+                text="TLC enumerates file states x directory states x event sequences (new, type, learning commit, crash in the middle of a save, restart, update) and checks the robustness "
+                     "invariants; the harness replays every scenario with torn = every proper byte prefix of an engine-written store, wrong-shape and empty-entry corpora, missing / blocked "
+                     "directory: nothing may panic, unreadable = absent (differential on 6 probe words), failed save keeps the choice in memory, completed save leaves a loadable file",
+                note="root sandbox: unwritable directory simulated by a regular file at its path; complete sweeps once per environment and worker, samples afterwards"),
     "C11": dict(category=MC, design_ref="DESIGN.md 5 C11",
                 technique="TLC model checking of UpdatedEquivFresh on the memo/stamp model + paired replay: updated context vs context created fresh at the update point",
                 text="TLC enumerates typing / auto-correct-file edits / update-engine / typing histories over 4 (quick) or 7 (thorough) configurations, checks the invariant on "
